@@ -2,10 +2,10 @@ package rules
 
 import (
 	"fmt"
-	"strings"
 	"go/token"
 	"go/types"
 	"morlockverif/checker/internal/core"
+	"strings"
 
 	"golang.org/x/tools/go/ssa"
 
